@@ -338,23 +338,26 @@ static void startup_child(const void *job, size_t n) {
 	vs_dev_t devs[VS_MAXDEV]; int nd; size_t pl; const uint8_t *p = job_parse(job, n, devs, &nd, &pl);
 	su_kind = p[0]; su_at = p[1]; su_seen = 0; su_armed = 0; su_done = 0; su_restart = pl > 2 ? p[2] : 0; su_rows = 0; su_restarted = 0;
 	hx_child_begin(NULL, 0, 0, NULL, 0, 0);
-	cm_std(&VM); cm_install(&VM); SB.on_msg = su_hook2;
+	int su_phase = pl > 3 ? p[3] : 0;      /* 0: the start-up dialogue, 1: the dialogue of bidib_send_sys_reset in the running session */
+	cm_std(&VM); cm_install(&VM); SB.on_msg = su_phase ? NULL : su_hook2;
 	int rc = hx_start_normal(0); hx_quiesce();
 	if (rc) res_infra("normal start failed");
+	if (su_phase) { uint8_t *m0; while ((m0 = bidib_read_message())) free(m0); while ((m0 = bidib_read_error_message())) free(m0);
+		SB.on_msg = su_hook2; bidib_send_sys_reset(0); hx_quiesce(); }
 	if (!su_done) { res_printf("N 1\nO 0 0\n"); res_finish(); }
 	hx_emit_san_events("c06.startup");
 	int found = 0, other = 0; uint8_t *m;
 	while ((m = bidib_read_error_message())) { if (m[0] + 1 == su_len && m[0] == su_msg[0] && !memcmp(m + 1, su_msg + 1, 1) && !memcmp(m + 3, su_msg + 3, (size_t) su_len - 3)) found++; else other++; free(m); }
 	int inmsg = 0; while ((m = bidib_read_message())) { if (m[0] + 1 == su_len && !memcmp(m + 3, su_msg + 3, (size_t) su_len - 3) && m[3] == su_msg[3]) inmsg++; free(m); }
 	static const char *KN[3] = {"MSG_SYS_ERROR", "MSG_NODE_NA", "MSG_BOOST_STAT(error state)"};
-	if (found != 1 || inmsg) { char cls[200]; snprintf(cls, sizeof cls, "wrong-destination type=%s during start-up expected=error-queue: an error-class message that arrived while the start-up dialogue was waiting is not in the error queue exactly once", KN[su_kind]);
+	if (found != 1 || inmsg) { char cls[200]; snprintf(cls, sizeof cls, "wrong-destination type=%s during %s expected=error-queue: an error-class message that arrived while the %s dialogue was waiting is not in the error queue exactly once", KN[su_kind], su_phase ? "system-reset" : "start-up", su_phase ? "reset" : "start-up");
 		res_violation(cls, "%s before the answer to downlink message #%d after the first node-table request%s: error queue holds it %d time(s), message queue %d time(s)", KN[su_kind], su_at, su_restart ? ", node table restarted at the second row request" : "", found, inmsg); }
 	if (su_restart && !su_restarted) res_infra("the node-table restart did not take place");
 	res_printf("O %x %x\nC startup_injections 1\nC startup_restarts %d\n", su_kind + 16 * su_restart, su_at, su_restarted);
 	res_finish();
 }
-static size_t startup_gen(long idx, uint8_t *payload, char *human, size_t hn) { int rs = idx >= 120; idx %= 120; payload[0] = (uint8_t) (idx % 3); payload[1] = (uint8_t) (idx / 3); payload[2] = (uint8_t) (rs ? 2 : 0);
-	snprintf(human, hn, "error-class message kind %ld before the answer to downlink message #%ld of the start-up dialogue%s", idx % 3, idx / 3, rs ? ", node table restarted at the second row request" : ""); return 3; }
+static size_t startup_gen(long idx, uint8_t *payload, char *human, size_t hn) { int ph = idx >= 240; idx %= 240; int rs = idx >= 120; idx %= 120; payload[3] = (uint8_t) ph; payload[0] = (uint8_t) (idx % 3); payload[1] = (uint8_t) (idx / 3); payload[2] = (uint8_t) (rs ? 2 : 0);
+	snprintf(human, hn, "error-class message kind %ld before the answer to downlink message #%ld of the %s dialogue%s", idx % 3, idx / 3, ph ? "system-reset" : "start-up", rs ? ", node table restarted at the second row request" : ""); return 4; }
 void c06_register(void) { harness_register("c06.startup", startup_child); harness_register("c06.vendor", vendor_child); harness_register("c06.own", own_child); harness_register("c06.route", route_child); harness_register("c06.queue", queue_child); harness_register("c06.sched", sched_child); }
 int c06_run(const char *tier) {
 	int thorough = !strcmp(tier, "thorough"); q_depth = thorough ? 5 : 3;
@@ -365,8 +368,8 @@ int c06_run(const char *tier) {
 	ex_map(&r); execs += r.done; states += r.distinct_outcomes; transitions += route_count(); if (!r.exhaustive) exhaustive = 0;
 	ex_spec_t vd = { .harness = "c06.vendor", .ncases = 8, .gen = vendor_gen, .label = "c06.vendor" };
 	{ ex_map(&vd); execs += vd.done; if (!vd.exhaustive) exhaustive = 0; rep_note("c06.vendor: %ld configuration / connectivity variants, %ld vendor reports routed", vd.done, rep_get("vendor_cases")); }
-	{ ex_spec_t su = { .harness = "c06.startup", .ncases = 2 * 3 * 40, .gen = startup_gen, .label = "c06.startup" }; ex_map(&su); execs += su.done; if (!su.exhaustive) exhaustive = 0;
-	  rep_note("c06.startup: %ld error-class messages injected at every point of the start-up dialogue after the first node-table request; in %ld of these runs the interface restarted its node table during the enumeration", rep_get("startup_injections"), rep_get("startup_restarts")); }
+	{ ex_spec_t su = { .harness = "c06.startup", .ncases = 2 * 2 * 3 * 40, .gen = startup_gen, .label = "c06.startup" }; ex_map(&su); execs += su.done; if (!su.exhaustive) exhaustive = 0;
+	  rep_note("c06.startup: %ld error-class messages injected at every point of the start-up dialogue and of the system-reset dialogue after the first node-table request; in %ld of these runs the interface restarted its node table during the enumeration", rep_get("startup_injections"), rep_get("startup_restarts")); }
 	ex_spec_t q = { .harness = "c06.queue", .ncases = queue_count(), .gen = queue_gen, .label = "c06.queue" };
 	ex_map(&q); execs += q.done; states += q.distinct_outcomes; transitions += q.done; if (!q.exhaustive) exhaustive = 0;
 	e1_spec_t s = { .harness = "c06.sched", .param = "", .nparam = 0, .bound = thorough ? 3 : 2, .label = "c06.sched two readers vs receiver" };
